@@ -548,8 +548,14 @@ void var_opt_union<T, A>::mark_moving_gadget_coercer(var_opt_sketch<T, A>& sk) c
     }
   }
 
-  if (result_h + result_r != result_k) throw std::logic_error("H + R counts must equal k");
-  if (std::abs(transferred_weight - outer_tau_numer_) > 1e-10 * outer_tau_numer_) {
+  const bool counts_mismatch = result_h + result_r != result_k;
+  if (counts_mismatch || std::abs(transferred_weight - outer_tau_numer_) > 1e-10 * outer_tau_numer_) {
+    // release the new arrays before reporting the inconsistency
+    for (size_t i = 0; i < result_h; ++i) { data[i].~T(); }
+    for (size_t i = next_r_pos + 1; i <= result_k; ++i) { data[i].~T(); }
+    AllocDouble(allocator_).deallocate(wts, result_k + 1);
+    A(allocator_).deallocate(data, result_k + 1);
+    if (counts_mismatch) throw std::logic_error("H + R counts must equal k");
     throw std::logic_error("unexpected mismatch in transferred weight");
   }
 
